@@ -1,5 +1,11 @@
 open Datatypes
 
+(** val qmap : ('a1 -> 'a2) -> 'a1 list -> 'a2 list **)
+
+let rec qmap f = function
+| [] -> []
+| a :: t -> (f a) :: (qmap f t)
+
 (** val qnth : nat -> 'a1 list -> 'a1 -> 'a1 **)
 
 let rec qnth n l default =
@@ -22,3 +28,52 @@ let rec qrev_append l l' =
 
 let qrev l =
   qrev_append l []
+
+(** val qfirstn : nat -> 'a1 list -> 'a1 list **)
+
+let rec qfirstn n l =
+  match n with
+  | O -> []
+  | S n0 -> (match l with
+             | [] -> []
+             | a :: l0 -> a :: (qfirstn n0 l0))
+
+(** val qskipn : nat -> 'a1 list -> 'a1 list **)
+
+let rec qskipn n l =
+  match n with
+  | O -> l
+  | S n0 -> (match l with
+             | [] -> []
+             | _ :: l0 -> qskipn n0 l0)
+
+(** val qfold_left : ('a1 -> 'a2 -> 'a1) -> 'a2 list -> 'a1 -> 'a1 **)
+
+let rec qfold_left f l a0 =
+  match l with
+  | [] -> a0
+  | b :: t -> qfold_left f t (f a0 b)
+
+(** val qfilter : ('a1 -> bool) -> 'a1 list -> 'a1 list **)
+
+let rec qfilter f = function
+| [] -> []
+| x :: l0 -> if f x then x :: (qfilter f l0) else qfilter f l0
+
+(** val qexistsb : ('a1 -> bool) -> 'a1 list -> bool **)
+
+let rec qexistsb f = function
+| [] -> false
+| a :: l0 -> (||) (f a) (qexistsb f l0)
+
+(** val qforallb : ('a1 -> bool) -> 'a1 list -> bool **)
+
+let rec qforallb f = function
+| [] -> true
+| a :: l0 -> (&&) (f a) (qforallb f l0)
+
+(** val qconcat : 'a1 list list -> 'a1 list **)
+
+let rec qconcat = function
+| [] -> []
+| x :: l0 -> app x (qconcat l0)
